@@ -95,6 +95,14 @@ func (w *World) storeKeys(addr ssa.Value) map[string]int {
 		if sl, ok := types.Unalias(a.X.Type()).Underlying().(*types.Slice); ok {
 			key, _ := w.sliceKey(sl.Elem())
 			out[key] = 2
+		} else if pa, ok := types.Unalias(a.X.Type()).Underlying().(*types.Pointer); ok {
+			if at, ok := types.Unalias(pa.Elem()).Underlying().(*types.Array); ok {
+				key, _ := w.sliceKey(at.Elem())
+				out[key] = 2
+				if _, isAlloc := a.X.(*ssa.Alloc); isAlloc {
+					out[key] = 1
+				}
+			}
 		}
 	case *ssa.Global:
 		key, _ := w.globalKey(a)
@@ -106,6 +114,9 @@ func (w *World) storeKeys(addr ssa.Value) map[string]int {
 				key, _ := w.fieldKey(elem, i)
 				out[key] = 1
 			}
+		} else if at, ok := types.Unalias(elem).Underlying().(*types.Array); ok {
+			key, _ := w.sliceKey(at.Elem())
+			out[key] = 1
 		} else {
 			key, _ := w.cellKey(elem)
 			out[key] = 1
